@@ -99,7 +99,7 @@ func runC06(c *Ctx) {
 	sort.Strings(names)
 	for _, n := range names {
 		fn := c.P.Funcs[n]
-		if pk[pkgShort(fn)] && isCallMethod(fn) && !done[n] && cs.ByFunc[n] == nil {
+		if pk[pkgShort(fn)] && isCallMethod(fn) && !done[n] {
 			rest = append(rest, fn)
 		}
 	}
@@ -178,11 +178,17 @@ func replayListAlias(c *Ctx, items []*Item) map[string]*ReplayOutcome {
 			listed[vc.FuncName(fn)] = true
 		}
 	}
-	var own []*Item
+	var own, rest []*Item
 	for _, it := range items {
 		if listed[it.Root] {
 			own = append(own, it)
+		} else {
+			rest = append(rest, it)
 		}
+	}
+	// the other built-ins: only inputs written down with the result the language requires (harness/speccheck)
+	for name, oc := range replaySpecCases(c, rest) {
+		res[name] = oc
 	}
 	items = own
 	for _, it := range items {
